@@ -1194,7 +1194,7 @@ impl<'t, 'a, 'g> Gen<'t, 'a, 'g> {
             let a = self.prim_expr(1).0;
             let b = self.prim_expr(1).0;
             format!(
-                "{ind}const {n} = new Set([{a}, {b}, {a}]);\n{ind}{n}.add(NaN).add(NaN).add(0).add(-0);\n{ind}__t({id}, [{n}.size, {n}.has({b}), {n}.delete({a}), [...{n}], {n}.size]);",
+                "{ind}const {n} = new Set([{a}, {b}, {a}]);\n{ind}{n}.add(NaN).add(NaN).add(0).add(-0);\n{ind}__t({id}, [{n}.size, {n}.has({b}), {n}.delete({a}), [...{n}], {n}.size, [...{n}.entries()].length, [...{n}.keys()].length, [...{n}.values()].length, {n}.entries().next().done, {n}.values().next().done]);\n{ind}for (const [sk, sv] of {n}.entries()) {{ if (sk === sv) {{ break; }} }}",
                 ind = ind(i),
                 n = name,
                 a = a,
